@@ -7,7 +7,8 @@ SPEC = dict(
     level_text="The three parts of the statement are decided on generated inputs only. (1) CosineSimilarity on tens of thousands of finite "
                "float32 pairs (tiny, denormal, huge, zero, equal, scaled, mismatched, empty). (2) Every byte-offset truncation of a small "
                "well-formed glove.bin / cmd_embeddings.bin, headers claiming 10^6..2^32-1 records over 0-800 bytes of body, wrong "
-               "dimensions, 65535-byte word lengths, zero counts, random bytes and 1 MB files with inflated counts are each loaded by a "
+               "dimensions, 65535-byte word lengths, zero counts, random bytes, 1 MB files with inflated counts and named pipes that deliver a few "
+               "bytes behind a header claiming millions of records (the size of a stream is what arrives) are each loaded by a "
                "fresh child process (cwd = directory with the files, RLIMIT_AS 3 GiB) that calls LoadEmbeddings and searches; the parent "
                "reads exit status, stderr and ru_maxrss. (3) For generated databases, answers of child processes with no files, with "
                "provably inert files and with active files are compared query by query. Exploration with per-class coverage floors, not proof.",
@@ -39,13 +40,13 @@ SPEC = dict(
          "Non-trivial = distinct (database, query) where at least one entry's score actually rose with active files.",
     floors=T({"history-pairs-literal": 200, "history-pairs-after-growth": 150, "history-pairs-raised": 300, "evaluations": 75000, "distinct_nontrivial": 1000,
               "cos-random": 10000, "cos-self": 3000, "cos-zero": 4000, "cos-mismatch": 5000, "cos-empty": 1500, "cos-extreme": 4000,
-              "files-truncation": 1600, "files-huge-count": 40, "files-wrong-dim": 90, "files-wordlen": 30, "files-zero": 7,
+              "files-truncation": 1600, "files-huge-count": 40, "files-wrong-dim": 90, "files-wordlen": 30, "files-zero": 7, "files-stream": 11,
               "files-random": 115, "files-inflated": 8, "files-valid": 15, "files-valid-loaded": 20,
               "inert-pairs": 12000, "inert-nonempty": 6000, "inert-zero-cmd-vectors": 3000, "inert-disjoint-vocabulary": 3000,
               "inert-below-floor": 3000, "active-pairs": 5000, "active-raised": 2000, "active-reordered": 500, "active-nonfinite-raised": 500},
              {"evaluations": 750000, "distinct_nontrivial": 10000,
               "cos-random": 100000, "cos-self": 30000, "cos-zero": 40000, "cos-mismatch": 50000, "cos-empty": 15000, "cos-extreme": 40000,
-              "files-truncation": 12000, "files-huge-count": 200, "files-wrong-dim": 90, "files-wordlen": 30, "files-zero": 7,
+              "files-truncation": 12000, "files-huge-count": 200, "files-wrong-dim": 90, "files-wordlen": 30, "files-zero": 7, "files-stream": 11,
               "files-random": 1400, "files-inflated": 8, "files-valid": 15, "files-valid-loaded": 20,
               "inert-pairs": 120000, "inert-nonempty": 60000, "inert-zero-cmd-vectors": 30000, "inert-disjoint-vocabulary": 30000,
               "inert-below-floor": 30000, "active-pairs": 50000, "active-raised": 20000, "active-reordered": 5000, "active-nonfinite-raised": 5000}),
